@@ -95,8 +95,11 @@ theorem DocLe.appendLine {E : Env} {normalize : Bool} {d : Doc} {B B' line : Nat
 
 /-! ### the scan invariant -/
 
-/-- newlines consumed but not yet credited to `line` -/
-def pend (s : State) : Nat := if s.deferredEOL = true ∨ s.deferredWord = true then 1 else 0
+/-- newlines consumed but not yet credited to `line`: one for a pending hyphenated line break
+(`deferredEOL`) and one for a joined word whose line break is still owed (`deferredWord`); both can
+be set at once (`a-\nb-\n`), and a newline taken with `deferredWord` set credits it (line + 2). -/
+def pend (s : State) : Nat :=
+  (if s.deferredEOL = true then 1 else 0) + (if s.deferredWord = true then 1 else 0)
 
 def Core (k : Nat) (s : State) : Prop :=
   ∃ L, s.line = L + 1 ∧ L + pend s ≤ k ∧ DocLe s.doc L
@@ -123,9 +126,13 @@ theorem Core.step_other {E : Env} {normalize : Bool} {k : Nat} {s : State} {r : 
         apply Core.startOrSkip
         split
         · rename_i hW
-          have hp : pend s = 1 := by simp [pend, hW]
+          have hp : 1 ≤ pend s := by simp [pend, hW]
           refine ⟨L + 1, by simp [hL], ?_, ?_⟩
-          · simp [pend, hE]; omega
+          · simp only [pend] at hk ⊢
+            simp only [hE, hW] at hk
+            simp only [hE]
+            simp at hk ⊢
+            omega
           · simp only [hL]
             exact hd.appendLine (by omega) (by omega) (by omega) (fun _ => Nat.le_refl _)
         · exact ⟨L, hL, by simpa [pend] using hk, hd⟩
@@ -140,12 +147,15 @@ theorem Core.step_other {E : Env} {normalize : Bool} {k : Nat} {s : State} {r : 
       split
       · rename_i hE
         refine ⟨L, hL, ?_, hd⟩
-        have : pend s = 1 := by simp [pend, hE]
-        simp [pend]; omega
+        simp only [pend] at hk ⊢
+        simp only [hE] at hk
+        simp at hk ⊢
+        split at hk <;> omega
       · exact ⟨L, hL, hk, hd⟩
 
 /-- a newline rune: one more newline consumed, and afterwards either both buffers are empty
-or the line counter did not move -/
+or the line counter did not move.  (A newline taken with `deferredWord` set moves the line
+counter by 2 and clears the flag, so `L + pend` still grows by exactly one.) -/
 theorem Core.step_nl {E : Env} {normalize : Bool} {k : Nat} {s : State}
     (h : Core k s) :
     Core (k + 1) (step E normalize s nl) ∧
@@ -156,20 +166,22 @@ theorem Core.step_nl {E : Env} {normalize : Bool} {k : Nat} {s : State}
   rw [if_pos rfl]
   split
   · refine ⟨⟨L, hL, ?_, hd⟩, fun _ => ?_⟩
-    · have : pend s ≤ 1 := by unfold pend; split <;> omega
-      simp [pend]; omega
-    · simp only [hL]; omega
-  · refine ⟨⟨L + 1, by simp [hL], ?_, ?_⟩, ?_⟩
     · simp only [pend] at hk ⊢
+      simp only [if_true]
+      split at hk <;> omega
+    · simp only [hL]; omega
+  · refine ⟨⟨L + 1 + (if s.deferredWord = true then 1 else 0), by simp only [hL]; omega, ?_, ?_⟩, ?_⟩
+    · simp only [pend] at hk ⊢
+      simp only [Bool.false_eq_true, if_false]
       omega
     · simp only [hL]
       have hA : DocLe (LC.V2Tok.appendLine E normalize s.doc (L + 1)
           (if s.obuf ≠ [] then s.linebuf ++ [flushWord E s.obuf] else s.linebuf)) (L + 1) :=
         hd.appendLine (by omega) (by omega) (by omega) (fun _ => Nat.le_refl _)
       split
-      · exact hA
+      · exact hA.mono (by omega)
       · exact hA.push_toks (ts := [{ word := [nl], line := L + 1 }])
-          (by intro t ht; rw [List.mem_singleton.1 ht]) (by omega) (Nat.le_refl _) (Nat.le_refl _)
+          (by intro t ht; rw [List.mem_singleton.1 ht]) (by omega) (Nat.le_refl _) (by omega)
     · intro hne
       exfalso
       simp only at hne
